@@ -67,6 +67,10 @@ func (st *PrefixStorage) Remove() error {
 	st.Lock()
 	defer st.Unlock()
 
+	if st.prefix == nil {
+		return storage.ErrClosed.WithStack()
+	}
+
 	return RemoveByPrefix(st.Storage, st.prefix)
 }
 
@@ -93,7 +97,12 @@ func (st *PrefixStorage) Iter(
 	callback func([]byte, []byte) (bool, error),
 	sort bool,
 ) error {
-	nr := leveldbutil.BytesPrefix(st.prefix)
+	prefix := st.openPrefix()
+	if prefix == nil {
+		return storage.ErrClosed.WithStack()
+	}
+
+	nr := leveldbutil.BytesPrefix(prefix)
 
 	if r != nil {
 		if r.Start != nil {
@@ -168,9 +177,28 @@ func (st *PrefixStorage) BatchFunc(
 	func(func(func() error) error) error,
 	func(),
 ) {
+	prefix := st.openPrefix()
+	if prefix == nil {
+		return func(func(LeveldbBatch), func(func() error) error) error {
+				return storage.ErrClosed.WithStack()
+			},
+			func(func(func() error) error) error {
+				return storage.ErrClosed.WithStack()
+			},
+			func() {}
+	}
+
 	return st.Storage.BatchFuncWithNewBatch(ctx, batchsize, wo, func() LeveldbBatch {
-		return st.NewBatch()
+		return newPrefixStorageBatch(prefix)
 	})
+}
+
+// openPrefix returns the prefix, or nil when the storage was closed.
+func (st *PrefixStorage) openPrefix() []byte {
+	st.RLock()
+	defer st.RUnlock()
+
+	return st.prefix
 }
 
 func (st *PrefixStorage) key(b []byte) []byte {
